@@ -138,6 +138,37 @@ pub fn run(ctx: &mut Ctx, replay: Option<&str>) {
             }
         }
     }
+    // one credential with a very large number of disclosures, everything selected: every issued disclosure comes back exactly
+    // once (whatever the holder keys its bookkeeping on meets its rare coincidences only at this scale)
+    if replay.is_none() {
+        let n = ctx.tier.pick(200_000, 600_000);
+        let claims = json!({"iss": "https://issuer.example", "exp": now() + 100000, "list": (0..n).map(|i| json!(i % 7)).collect::<Vec<_>>()});
+        let a = IssueArgs { claims: claims.clone(), strategy: Strategy::All, holder: None, decoy: false, fmt: Fmt::Compact, key: crate::keys::KeyId::Hmac1, alg: Some("HS256".into()), queue: None };
+        let issued = issue(&a);
+        ctx.impl_calls += 1;
+        if let Some(s) = issued.out.ok() {
+            let h = holder_session(s, a.fmt, &[PresentArgs::plain(select_all(&claims).as_object().cloned().unwrap_or_default())]);
+            ctx.impl_calls += 2;
+            ctx.evaluations += 1;
+            ctx.oracle_checks += 1;
+            ctx.count("stream.everything_of_a_huge_credential");
+            let case = json!({"huge_credential": {"array_elements": n, "strategy": "all", "selection": "everything"}});
+            let all = split(a.fmt, s).map(|p| p.disclosures).unwrap_or_default();
+            match h.calls.first().and_then(|c| c.out.ok()).and_then(|p| split(a.fmt, p)) {
+                Some(pp) => {
+                    if sorted(pp.disclosures.clone()) != sorted(all.clone()) {
+                        let got: HashSet<&String> = pp.disclosures.iter().collect();
+                        let missing = all.iter().filter(|d| !got.contains(*d)).count();
+                        ctx.violation("oracle", "present", &format!("everything selected of {} disclosures: {} presented, {} of the issued ones missing", all.len(), pp.disclosures.len(), missing), case,
+                                      json!({"presented": pp.disclosures.len(), "missing": missing}), json!({"disclosures": all.len()}));
+                    } else {
+                        ctx.nontrivial(&case);
+                    }
+                }
+                None => ctx.violation("oracle", "present", "everything selected of a huge credential: no presentation", case, h.calls.first().map(|c| c.out.describe()).unwrap_or(h.new.describe()), json!("Ok")),
+            }
+        }
+    }
     let mut reqs = vec![];
     let mut runs = vec![];
     for (f, _) in &flows {
